@@ -128,6 +128,7 @@ OrderedThenFirst ==
         <<[name |-> "c", q |-> SelQ(<<I(A), I(G)>>, T, None)],
           [name |-> "d", q |-> [SelQ(<<Star>>, C, None) EXCEPT !.order = <<[key |-> <<"a">>, asc |-> FALSE], [key |-> <<"g">>, asc |-> FALSE]>>]]>>]
 
+DualInner == SelQ(<<Item(LN(3), "a"), Item(LN(1), "g"), Item(Col("u"), "us")>>, Dual, None)
 Cases ==
        {[fam |-> "cte", q |-> WithC(Inners[i], o)] : i \in DOMAIN Inners, o \in Outers(C, <<>>) \cup {GroupOuter(C)}}
   \cup {[fam |-> "derived", q |-> o] : o \in UNION {Outers(Derived(Inners[i], "x"), <<"x">>) : i \in DOMAIN Inners}}
@@ -144,6 +145,12 @@ Cases ==
   \cup {[fam |-> "derived", q |-> r] : r \in Renamed}
   \cup {[fam |-> "sibling", q |-> UnaliasedOuter(ty)] : ty \in {"left", "right"}}
   \cup {[fam |-> "sibling", q |-> ShadowWith]}
+  \* a CTE / a derived table over dual: one row made by the select list from the document itself
+  \cup {[fam |-> "cte", q |-> WithC(DualInner, o)] : o \in Outers(C, <<>>) \cup {GroupOuter(C)}}
+  \cup {[fam |-> "derived", q |-> o] : o \in Outers(Derived(DualInner, "x"), <<"x">>)}
+  \cup {[fam |-> "cte", q |-> WithC(SelQ(<<Star>>, Dual, None), SelQ(<<Star>>, Table(<<"c", "u">>, ""), None))],
+        [fam |-> "sub", q |-> SelQ(<<I(A), Item(Sub(SelQ(<<Star>>, Dual, None)), "s")>>, T, None)],
+        [fam |-> "sub", q |-> SelQ(<<I(A), Item(Sub(SelQ(<<I(G), Item(Bin("+", A, LN(1)), "b")>>, Dual, None)), "s")>>, T, CmpE(">", A, LN(1)))]}
   \cup {[fam |-> "twice", q |-> Twice(NestedWith)], [fam |-> "twice", q |-> TwiceAliased(NestedWith)], [fam |-> "sibling", q |-> UnionSideWith],
         [fam |-> "sibling", q |-> [UnionSideWith EXCEPT !.all = FALSE]]}
 
